@@ -26,6 +26,7 @@ from pyvc.symexec import Obligation
 
 PROP = 'C05'
 LEVEL = 'proof'
+TIMEOUT_MS = {'quick': 120000, 'thorough': 300000}
 M = 'math'
 EXPLANATION = ('All stores to _pitch/_yaw/_roll are enumerated from the AST and each is shown to be a double modulo, a '
                'copy of another angle slot or an in-range literal; a single float modulo is shown (Float64) to reach '
@@ -316,6 +317,7 @@ def static_format_float(repo):
                 ip = z3.String('ip')
                 head = z3.String('fh')       # first 6-k fraction digits, last one non-zero
                 path.assume(z3.InRe(ip, z3.Re('0') if ip_zero else z3.Concat(nonzero, z3.Star(digit))))
+                path.assume(z3.Length(ip) <= 9)      # |x| < 1e9 (the property speaks of magnitudes up to 1e6)
                 if k < 6:
                     path.assume(z3.And(z3.Length(head) == 6 - k,
                                        z3.InRe(head, z3.Concat(z3.Star(digit), nonzero))))
